@@ -253,7 +253,8 @@ Section Tape.
         | None => Err EAttr                     (* __getattr__: the name is not 'e' + hex digits *)
         end
     end.
-  Definition rec_meth2 (m : string) (r1 r2 : rval) : res rval :=
+  (* members bound by partialmethod(binary_operator, operator=..) *)
+  Definition rec_meth2tab (m : string) (r1 r2 : rval) : res rval :=
     match r1 with
     | RNum _ => Err EAttr
     | RRec ks t =>
@@ -263,28 +264,42 @@ Section Tape.
         | None => Err EAttr
         end
     end.
+  (* the reflected members written out as methods:
+       def __rsub__(self, other): return other + (-self)
+       def __rmul__(self, other): return other.gp(self) if isinstance(other, self.__class__) else self.gp(other)
+       def __rxor__(self, other): return other.op(self) if isinstance(other, self.__class__) else self.op(other) *)
+  Definition rec_special (m : string) (self other : rval) : res rval :=
+    if String.eqb m "__rsub__" then
+      n <- rec_meth1 "__neg__" self ;;
+      match other with
+      | RRec _ _ => rec_meth2tab "__add__" other n           (* other + n: type(other).__add__ *)
+      | RNum _ => rec_meth2tab "__radd__" n other            (* a number on the left: n.__radd__(other) *)
+      end
+    else if String.eqb m "__rmul__" then
+      match other with RRec _ _ => rec_meth2tab "gp" other self | RNum _ => rec_meth2tab "gp" self other end
+    else if String.eqb m "__rxor__" then
+      match other with RRec _ _ => rec_meth2tab "op" other self | RNum _ => rec_meth2tab "op" self other end
+    else Err EAttr.                         (* __getattr__: the name is not 'e' + hex digits *)
+  Definition rec_meth2 (m : string) (r1 r2 : rval) : res rval :=
+    match r1 with
+    | RNum _ => Err EAttr
+    | RRec _ _ =>
+        match mlookup m tapetab with
+        | Some _ => rec_meth2tab m r1 r2
+        | None => rec_special m r1 r2
+        end
+    end.
   Definition rec_prefix (u : prefix) (r : rval) : res rval :=
     match r with
     | RNum c => match u with PNeg => Ok (RNum (o_neg O c)) | PInvert => Err ENotImpl end
     | RRec _ _ => rec_meth1 (pdunder u) r
     end.
+  (* l o r: a recorder on the left answers with __o__; a number on the left returns NotImplemented and the
+     recorder's reflected member __ro__ is tried (TypeError when it has none) *)
   Definition rec_infix (o : infix) (r1 r2 : rval) : res rval :=
     match r1, r2 with
     | RRec _ _, _ => rec_meth2 (dunder o) r1 r2
-    | RNum c, RRec _ _ =>
-        match mlookup (rdunder o) tapetab with
-        | Some _ => rec_meth2 (rdunder o) r2 r1
-        | None =>
-            match o with
-            | ISub =>                                  (* def __rsub__(self, other): return other + (-self) *)
-                n <- rec_meth1 "__neg__" r2 ;;
-                match mlookup "__radd__" tapetab with
-                | Some _ => rec_meth2 "__radd__" n r1
-                | None => Err EType
-                end
-            | _ => Err EType                           (* unsupported operand type(s) *)
-            end
-        end
+    | RNum c, RRec _ _ => rec_meth2 (rdunder o) r2 r1
     | RNum a, RNum b =>
         match o with
         | IAdd => Ok (RNum (o_add O a b)) | ISub => Ok (RNum (o_sub O a b)) | IMul => Ok (RNum (o_mul O a b))
@@ -343,20 +358,16 @@ Section Tape.
     | RRec _ _ => n <- rec_norm r ;; rec_infix IDiv r n
     end.
 
-  Definition rkeys (r : rval) : option (list Z * tape R) :=
-    match r with RRec ks t => Some (ks, t) | RNum _ => None end.
-  Fixpoint all_some {X} (l : list (option X)) : option (list X) :=
-    match l with
-    | [] => Some []
-    | Some x :: r => match all_some r with Some xs => Some (x :: xs) | None => None end
-    | None :: _ => None
-    end.
+  Definition is_rec (r : rval) : bool := match r with RRec _ _ => true | RNum _ => false end.
+  (* Registry.__call__ while recording: TapeRecorder(expr='(number,)', keys=(0,)) for an input that is not a recorder *)
+  Definition as_rec (r : rval) : list Z * tape R :=
+    match r with RRec ks t => (ks, t) | RNum c => ([0], TNum c) end.
 
   (* f( *tapes): the recorder run.  [kenv] = the keys of the parameters.  A call of another registered
-     function with recorder arguments (Registry.__call__, first branch): keys_out, func = self[keys_in]
-     compiles g_k for the keys of the argument recorders; the call expression names that function.
-     Any argument that is a plain number sends Registry.__call__ down its numeric branch with recorders as
-     "values": not modelled (EOther; the real code raises there, see tools/props/C11.py). *)
+     function with at least one recorder argument (Registry.__call__, first branch): a plain number is
+     wrapped as a scalar recorder, keys_out, func = self[keys_in] compiles g_k for the keys of the argument
+     recorders and the call expression names that function.  A call with plain numbers only goes down the
+     numeric branch and yields a MultiVector inside the recording: not modelled (EOther). *)
   Fixpoint record (fuel : nat) (kenv : list (list Z)) (e : expr R) {struct fuel} : res rval :=
     match fuel with
     | 0%nat => Err EFuel
@@ -378,9 +389,8 @@ Section Tape.
         | ENormalized e1 => r <- rc e1 ;; rec_normalized r
         | ECall k args =>
             rs <- mapM rc args ;;
-            match all_some (map rkeys rs) with
-            | None => Err EOther
-            | Some kts =>
+            if negb (existsb is_rec rs) then Err EOther else
+            let kts := map as_rec rs in
                 let kin := map fst kts in
                 body <- of_opt EIndex (nth_error bodies k) ;;
                 rb <- record fu kin body ;;                      (* do_compile(self.codegen, *tapes) *)
@@ -388,7 +398,6 @@ Section Tape.
                 | RRec ko tb => Ok (RRec ko (TCall k kin tb (map snd kts)))
                 | RNum _ => Err EAttr                            (* res.expr on a plain number *)
                 end
-            end
         end
     end.
 
